@@ -22,6 +22,8 @@ class Unit:
         self.items = []  # (path, sha)
         self.default_props = []
         self.safety_prop = None
+        self.proves = []
+        self.assumes = []
 
 
 def parse_bt(s):
@@ -32,8 +34,30 @@ def parse_bt(s):
     return (m.group(2).replace("\\n", "\n"), m.group(3).replace("\\n", "\n"), int(m.group(1) or 1))
 
 
+def load_shared():
+    """contract texts shared between the unit that proves a function and the units that assume it"""
+    defs = {}
+    p = os.path.join(OVERLAY_DIR, "shared_contracts.vrs")
+    if not os.path.exists(p):
+        return defs
+    cur, buf, line0 = None, [], 0
+    for n, l in enumerate(open(p).read().split("\n"), 1):
+        m = re.match(r"\s*//@define\s+(\S+)", l)
+        if m:
+            cur, buf, line0 = m.group(1), [], n + 1
+            continue
+        if re.match(r"\s*//@enddef", l):
+            defs[cur] = ("\n".join(buf) + "\n", line0)
+            cur = None
+            continue
+        if cur is not None:
+            buf.append(l)
+    return defs
+
+
 def build_unit(name):
     """returns Unit with generated text; raises rsx.RsxError (=> undecided)"""
+    shared = load_shared()
     opath = os.path.join(OVERLAY_DIR, name + ".vrs")
     raw = open(opath).read().split("\n")
     u = Unit(name)
@@ -94,6 +118,10 @@ def build_unit(name):
             i += 1
             continue
         d, arg = m.group(1), m.group(2).strip()
+        if d == "include":
+            inc = open(os.path.join(OVERLAY_DIR, arg)).read().split("\n")
+            raw[i:i + 1] = inc
+            continue
         if d == "props":
             u.default_props = arg.split()
             i += 1
@@ -119,6 +147,8 @@ def build_unit(name):
                 text = "\n".join(buf) + "\n"
                 if cur[0] == "contract":
                     spec["contract"] = (text, cur_line)
+                elif cur[0] == "body_contract":
+                    spec["body_contract"] = (text, cur_line)
                 elif cur[0] == "loop":
                     spec["loops"][cur[1]] = (text, cur_line)
                 elif cur[0] in ("before", "after"):
@@ -154,6 +184,20 @@ def build_unit(name):
                     spec["sig_subst"].append(parse_bt(a2))
                 elif d2 == "loop_count":
                     spec["loop_count"] = int(a2)
+                elif d2 == "contract_ref":
+                    if a2 not in shared:
+                        raise rsx.RsxError("%s.vrs:%d unknown shared contract %s" % (name, i + 1, a2))
+                    spec["contract"] = shared[a2]
+                    spec["contract_file"] = "shared_contracts.vrs"
+                    spec["contract_name"] = a2
+                elif d2 == "lift":
+                    spec["lift"] = a2
+                elif d2 == "body_ret":
+                    spec["body_ret"] = a2
+                elif d2 == "stub":
+                    spec["stub"] = True
+                elif d2 == "body_contract":
+                    cur, cur_line = ("body_contract",), i + 2
                 elif d2 == "contract":
                     cur, cur_line = ("contract",), i + 2
                 elif d2 == "loop":
@@ -172,10 +216,15 @@ def build_unit(name):
             if d == "fn":
                 if not spec["loops"] and "loop_count" not in spec:
                     spec["loops"] = {} if True else None
-                w = rsx.weave_fn(src, path, rel, spec)
+                if spec.get("lift"):
+                    w = rsx.weave_lifted(src, path, rel, spec, get_src("h263/src/parser/reader.rs"))
+                else:
+                    w = rsx.weave_fn(src, path, rel, spec)
             else:
                 w = rsx.extract_verbatim(src, path, rel, keep_pub=spec.get("keep_pub", False), subst=spec["subst"])
             emit_woven(w, path, rel)
+            if spec.get("contract_name"):
+                (u.assumes if spec.get("stub") else u.proves).append(spec["contract_name"])
             if wrap:
                 u.lines.append(("}", ("gen", "wrap", 0)))
                 wrap = None
@@ -373,6 +422,10 @@ def run_unit(name, prop):
     for n in u.notes:
         res["trusted"].append("extraction %s: %s" % (name, n))
     res["items"] = u.items
+    res["proves"] = u.proves
+    res["assumes"] = u.assumes
+    for a in u.assumes:
+        res["trusted"].append("unit %s assumes shared contract `%s` (proved by the unit/harness registered for it, see registry.CONTRACT_PROVED_BY)" % (name, a))
     return res
 
 
